@@ -138,6 +138,7 @@ class SRECline(object):
             self.cksum = cksum ^ 0xFF
             if self.cksum != int(line[-2:], 16):
                 logger.warn("bad checksum, needed %02x"%(cksum^0xff))
+                raise SRECError(line)
         except (AssertionError,ValueError):
             raise SRECError(line)
 
